@@ -22,6 +22,9 @@ struct Faulty {
     len_calls: Cell<usize>,
     hints: Vec<(usize, Option<usize>)>,
     hint_calls: Cell<usize>,
+    /// an iterator that already misreports keeps changing its answer when it is asked more often than the
+    /// specification's constructor asks (one more each time); an honest one stays honest
+    liar: bool,
 }
 impl Iterator for Faulty {
     type Item = E;
@@ -42,6 +45,9 @@ impl ExactSizeIterator for Faulty {
     fn len(&self) -> usize {
         let i = self.len_calls.get();
         self.len_calls.set(i + 1);
+        if self.liar && i >= self.lens.len() && self.lens[self.lens.len() - 1] < (1 << 40) {
+            return self.lens[self.lens.len() - 1] + 1 + (i - self.lens.len());
+        }
         self.lens[i.min(self.lens.len() - 1)]
     }
 }
@@ -703,7 +709,7 @@ pub fn run_case(c: &Value, variant: usize) -> Vec<String> {
         }
         let up_o = if up == 99 { None } else if up == 98 { Some(usize::MAX / 2) } else { Some(up) };
         let mk_iter = |v: Vec<E>, lens: Vec<usize>, hints: Vec<(usize, Option<usize>)>| Faulty {
-            inner: v.into_iter(), calls: 0, k, lens, len_calls: Cell::new(0), hints, hint_calls: Cell::new(0),
+            inner: v.into_iter(), calls: 0, k, liar: lens.iter().any(|l| *l != a), lens, len_calls: Cell::new(0), hints, hint_calls: Cell::new(0),
         };
         match ctor {
             "fhi" if variant == 1 => {
